@@ -142,6 +142,23 @@ func Load(cfg BuildConfig, overlay map[string][]byte) (*Program, error) {
 		}
 	}
 	p.NFuncs = len(p.Funcs)
+	for _, pk := range p.AllPkgs {
+		if pk.Types == nil {
+			continue
+		}
+		sc := pk.Types.Scope()
+		for _, n := range sc.Names() {
+			if tn, ok := sc.Lookup(n).(*types.TypeName); ok && !tn.IsAlias() {
+				if st, ok := tn.Type().Underlying().(*types.Struct); ok {
+					for i := 0; i < st.NumFields(); i++ {
+						if _, dup := fieldOwners[st.Field(i)]; !dup {
+							fieldOwners[st.Field(i)] = tn.Name()
+						}
+					}
+				}
+			}
+		}
+	}
 	for _, pk := range p.Pkgs {
 		for _, f := range pk.Syntax {
 			p.fileOf[f] = pk
